@@ -61,23 +61,35 @@ def loopCond (kind : String) : Option (Int → Bool × Int) :=
     it beyond the number of replicas (every replica sends one delta, the default one if it saw nothing) -/
 def split (n : Nat) (xs : List Int) : List (List Int) := xs :: List.replicate (n - 1) []
 
-def isNest (kind : String) : Bool := kind == "nested" || kind == "nestri" || kind == "nestir"
+def isNest (kind : String) : Bool :=
+  ["nested", "nestri", "nestir", "nestrx", "nestrm", "nestix", "nestim"].contains kind
 /-- the OUTER loop feeds its output back (iterate) -/
-def outerFeed (kind : String) : Bool := kind == "iterate" || kind == "nestir"
+def outerFeed (kind : String) : Bool := ["iterate", "nestir", "nestix", "nestim"].contains kind
 /-- the INNER loop feeds its output back (iterate) -/
-def innerFeed (kind : String) : Bool := kind == "nestri"
+def innerFeed (kind : String) : Bool := ["nestri", "nestrx", "nestrm", "nestix", "nestim"].contains kind
+/-- what the outer body returns: `F` the final inner state (one element, mod 1000), `X` the inner
+    iterate's ITEMS (the elements of its last round), `M` both (merged) -/
+def outMode (kind : String) : String :=
+  if kind == "nestrx" || kind == "nestix" then "X" else if kind == "nestrm" || kind == "nestim" then "M" else "F"
+
+def outerOut (kind : String) (F : Int) (items : List Int) : List Int :=
+  match outMode kind with
+  | "X" => items
+  | "M" => (F % 1000) :: items
+  | _ => [F % 1000]
 
 def innerLoop (maxInner : Nat) (So : Int) : Loop Int Int Int :=
   { init := 1, maxIter := maxInner, body := fun Si xs => xs.map fun x => (x + So + Si) % M,
     delta0 := 0, localFold := fun d x => d + x, global := fun s d => s + d, cond := fun s => (true, s) }
 
-/-- final state of the inner loop (replay or iterate) -/
-def innerResult (kind : String) (maxInner n : Nat) (So : Int) (xs : List Int) : Int :=
-  (lastD (trace (innerLoop maxInner So) (innerFeed kind) (split n) xs) (1, [])).1
+/-- final state of the inner loop (replay or iterate) and the output of its last round -/
+def innerResult (kind : String) (maxInner n : Nat) (So : Int) (xs : List Int) : Int × List Int :=
+  lastD (trace (innerLoop maxInner So) (innerFeed kind) (split n) xs) (1, [])
 
 def mkLoop (kind body fold : String) (cond : Int → Bool × Int) (init : Int) (mx maxInner n : Nat) : Loop Int Int Int :=
   { init, maxIter := mx,
-    body := if isNest kind then fun So xs => [innerResult kind maxInner n So xs % M] else bodyFn body,
+    body := if isNest kind then fun So xs => let r := innerResult kind maxInner n So xs; outerOut kind r.1 r.2
+            else bodyFn body,
     delta0 := 0, localFold := localFold fold, global := globalFold fold, cond }
 
 def ints (l : List Int) : String := toString (Val.ofInts l)
@@ -199,8 +211,8 @@ partial def substRun (kind : String) (l : Loop Int Int Int) (maxInner n : Nat) (
       if ki + 1 < innerRounds then
         inner (ki + 1) Si' (if innerFeed kind then outs else iinp) (stale ++ st) fails (used + recs.length)
       else (Si', outs, stale ++ st, fails, used + recs.length)
-    let (F, _, stale, fails, used) := inner 0 1 inp stale fails used
-    let out := [F % M]
+    let (F, lastOuts, stale, fails, used) := inner 0 1 inp stale fails used
+    let out := outerOut kind F lastOuts
     let r := l.cond (foldRound l So (split n out))
     if r.1 && ko + 1 < l.maxIter then
       outer (ko + 1) r.2 (some So) (if outerFeed kind then out else input) stale fails used
@@ -224,6 +236,7 @@ def handle (c : Case) : Verdict :=
       let fails : List String := c.implOut.flatMap fun line =>
         match words line with
         | ["blocked"] => ["[C10] the job did not finish within 20 s (blocked)"]
+        | [w] => if w.startsWith "panic:" then [s!"[C10] the job panicked ({w})"] else [s!"[C10] unexpected line {line}"]
         | ["state", v] =>
           if v == ints [r.state] then [] else [s!"[C10] final state {v}, sequential semantics gives {ints [r.state]}"]
         | ["items", v] =>
@@ -258,7 +271,8 @@ def handle (c : Case) : Verdict :=
       -- whole output is explained by the reads the inner body really made, all deviating reads being reads
       -- of the previous outer round's state S_(k-1) on a host other than the outer leader's
       let f9 : Option String :=
-        if fails.isEmpty || !isNest kind || hosts < 2 || !(body == "n1" || body == "n3") then none else
+        if fails.isEmpty || !isNest kind || hosts < 2 || !(body == "n1" || body == "n3")
+            || c.implOut.any (fun l => l == "blocked" || l.startsWith "panic:") then none else
         let sub := substRun kind l maxInner n input implRds
         let ats := c.implOut.filterMap parseAt
         let leaderHost : Nat := ((c.implOut.filterMap fun l => match words l with
